@@ -390,14 +390,23 @@ Section C05given.
   Proof. exact (solve_offset_beyond_span_stops_given num sub absf ltb isfin zero ev before after L locate d o span start end_ s a b j). Qed.
 End C05given.
 
-(* KEPT FINDING (new, reproduced on /repo): next(model.iter_periods()) raises TypeError — PeriodIter.__next__ calls next() on a list —
-   although iter_periods() returns the pairs: "the first period of the range comes first" is REFUTED for the next() protocol
-   (for / list() / enumerate(), which solve() uses, are unaffected: the theorems above).  Candidate repair: /verif/fixes/perioditer-next.diff *)
-Theorem C05_period_iter_next_refuted :
-  exists d (span : list Z) p ps n,
-    iter_periods_M Z (locate_span SpList span) d span None None = Ret (n, p :: ps) /\
-    period_iter_next_M (iter_periods_M Z (locate_span SpList span) d span None None) = Raise TypeError.
-Proof. exact period_iter_next_refuted. Qed.
+(* next() on the object iter_periods() returns — REPAIRED by 7e39627 (was the finding "next(iter_periods()) raises TypeError", candidate
+   patch /verif/fixes/perioditer-next): the first period of the range comes first; a reversed (empty) range gives StopIteration
+   (OtherError in the model).  Same guards as everywhere: only on labels the caller gives. *)
+Section C05next.
+  Variable L : Type.
+  Variable locate : L -> locres.
+  Theorem C05_period_iter_next_first d span start end_ a b lab :
+    given_ok L locate start a -> given_ok L locate end_ b -> resolves_start L d span start a -> resolves_end L d span end_ b ->
+    (a <= b)%nat -> nth_error span a = Some lab ->
+    period_iter_next_M (iter_periods_M L locate d span start end_) = Ret (Z.of_nat a, lab).
+  Proof. exact (period_iter_next_first L locate d span start end_ a b lab). Qed.
+  Theorem C05_period_iter_next_empty d span start end_ a b :
+    given_ok L locate start a -> given_ok L locate end_ b -> resolves_start L d span start a -> resolves_end L d span end_ b ->
+    (b < a)%nat ->
+    period_iter_next_M (iter_periods_M L locate d span start end_) = Raise OtherError.
+  Proof. exact (period_iter_next_empty L locate d span start end_ a b). Qed.
+End C05next.
 
 (* the guards are decidable *)
 Theorem C05_nodup_b_spec l : nodup_b l = true <-> NoDup l.
@@ -545,7 +554,9 @@ Print Assumptions C05_failure_containment_given.
 Print Assumptions C05_untouched_outside_range_given.
 Print Assumptions C05_solve_offset_before_span_rejected_given.
 Print Assumptions C05_solve_offset_beyond_span_stops_given.
-Print Assumptions C05_period_iter_next_refuted.
+Print Assumptions C05_period_iter_next_first.
+Print Assumptions C05_period_iter_next_empty.
+Print Assumptions exS_period_iter_protocol.
 Print Assumptions exS_default_end_repeated_label.
 Print Assumptions exS_given_repeated_label.
 Print Assumptions C05_solve_unique_ends_b.
